@@ -689,6 +689,17 @@ func c01R6(c *Ctx) {
 		s1, ok1 := constString(b.Y)
 		return ok1 && s1 == "output"
 	})
+	if gKind == nil {
+		// the guard clause form: `if Kind != output { …; continue }` before the delete
+		gKind = guardedBy(del, false, func(cond ssa.Value) bool {
+			b, ok := cond.(*ssa.BinOp)
+			if !ok || b.Op != token.NEQ {
+				return false
+			}
+			s1, ok1 := constString(b.Y)
+			return ok1 && s1 == "output"
+		})
+	}
 	c.verdict(gKind != nil, rule, key+"#delete", c.instrPos(del), "delete(waitingOutputs, id) on the failed-output branch", "delete(waitingOutputs, …) is not guarded by Kind == output")
 	if mk == nil {
 		c.bad(rule, key+"#error", c.instrPos(del), "no ErrNoMorePossibleOutputs is raised in notifySteps: a run whose outputs all became unresolvable waits for unrelated steps instead of ending")
